@@ -325,6 +325,21 @@ def d1(ctx, rep):
     else:
         rep.check('D1.accessor', gc, sel[0] if sel else gc.node.name, ok, 'the copula of a child edge is selected on get_conditional_uni(left_parent, right_parent)',
                   'the copula of a child edge is not selected on the conditional pseudo-observations of its own parents', construct='child edge selection input')
+    # the pair copula of an edge is what select_copula returns for the edge's two input columns - all of their rows
+    from ..idioms import row_subset_of, row_subsets_reaching
+    for f_ in prog.functions.values():
+        if f_.module.name != 'copulas.multivariate.tree':
+            continue
+        for c_ in walk_no_nested(f_.node):
+            if isinstance(c_, ast.Call) and call_name(c_) == 'select_copula' and c_.args:
+                a0 = c_.args[0]
+                direct = row_subset_of(f_.node, a0)
+                hits = row_subsets_reaching(f_.node, {a0.id}, before=c_) if isinstance(a0, ast.Name) else []
+                hits = [h for h in hits if h[1] == a0.id]
+                if direct is not None or hits:
+                    how = direct[1] if direct is not None else hits[0][3]
+                    rep.bad('D1.accessor', f_, hits[0][0] if hits else c_, f'the pseudo-observations handed to select_copula are {how} of the edge\'s inputs: family and theta come from part of the '
+                            'rows, while the h-functions, the likelihood and sampling use all of them', construct=f'{f_.node.name}: selection on all rows')
     # first trees: the two columns given to select_copula are the nodes that become L, R
     for clsn in ('CenterTree', 'DirectTree', 'RegularTree'):
         fn = prog.cls(TREE + clsn).methods['_build_first_tree']
